@@ -107,6 +107,20 @@ def parsed(rng, sid):
             # single-line values: the key may be one of the file's, whose entry can carry a trailing comment (5.4: a comment
             # after the value on single-line entries only)
             s.add("SET", 0, "str", h(sec), h(g.key()), h(value54(rng, g, d, single=True)))
+    ents = [it for it in items if it["kind"] == "entry"]
+    if ents and rng.random() < 0.3:
+        # a setter call that is refused (not a boolean word) on a key of the file: nothing may change, whatever the entry
+        # carries (quotes, comments, continuation lines)
+        s.meta["kind"] = s.meta["kind"] + "_refused_set"
+        cur = None
+        secs = {}
+        for it in items:
+            if it["kind"] == "section":
+                cur = it["name"]
+            elif it["kind"] == "entry":
+                secs[id(it)] = cur
+        for it in rng.sample(ents, min(len(ents), rng.randint(1, 3))):
+            s.add("SET", 0, "bool", h(secs[id(it)]), h(it["key"]), h(rng.choice([b"maybe", b"2", b"yess"])))
     return finish(s, d, c, rng)
 
 
